@@ -5,6 +5,11 @@ import (
 	"fmt"
 	"strings"
 
+	"github.com/xjslang/xjs/ast"
+	"github.com/xjslang/xjs/lexer"
+	"github.com/xjslang/xjs/parser"
+	"github.com/xjslang/xjs/token"
+
 	"xmc/core"
 	"xmc/gen"
 	"xmc/ref"
@@ -23,6 +28,39 @@ type c13Payload struct {
 // measured by the worker: parses executed, and a sink for product states (acceptance vector + error counts)
 var c13Parses int64
 var c13Sink func(state string)
+
+// c13ExtPB: one long-lived builder per mode that carries a language extension the programs never use (an
+// infix, a prefix and a postfix operator on spellings outside every alphabet, and pass-through token,
+// statement and expression interceptors). What a mode means does not depend on what else is on the builder.
+var c13ExtBuilders [4]*parser.Builder
+
+func c13ExtPB(mi int) *parser.Builder {
+	if c13ExtBuilders[mi] != nil {
+		return c13ExtBuilders[mi]
+	}
+	pb := newPB(Modes[mi])
+	lb := pb.LexerBuilder
+	types := map[string]token.Type{}
+	for _, sp := range []string{"OPX", "PREX", "BANGX"} {
+		types[sp] = lb.RegisterTokenType("tt_" + sp)
+	}
+	lb.UseTokenInterceptor(func(l *lexer.Lexer, next func() token.Token) token.Token {
+		t := next()
+		if t.Type == token.IDENT {
+			if ty, ok := types[t.Literal]; ok {
+				t.Type = ty
+			}
+		}
+		return t
+	})
+	pb.RegisterInfixOperator(types["OPX"], parser.PRODUCT+1, mkInfix)
+	pb.RegisterPrefixOperator(types["PREX"], mkPrefix)
+	pb.RegisterPostfixOperator(types["BANGX"], mkPostfix)
+	pb.UseStatementInterceptor(func(p *parser.Parser, next func() ast.Statement) ast.Statement { return next() })
+	pb.UseExpressionInterceptor(func(p *parser.Parser, next func() ast.Expression) ast.Expression { return next() })
+	c13ExtBuilders[mi] = pb
+	return pb
+}
 
 func c13Modes(src string) (kind, detail string, accepted bool) {
 	var outs [4]ParseOut
@@ -83,6 +121,22 @@ func c13Modes(src string) (kind, detail string, accepted bool) {
 		}
 		if outs[t].Errs[0].Range != e.Range {
 			return "tolerant-first-error-differs", fmt.Sprintf("%s first error %q at %v; %s first error %q at %v", Modes[s], e.Message, e.Range, Modes[t], outs[t].Errs[0].Message, outs[t].Errs[0].Range), accepted
+		}
+	}
+	// the same four results on a builder that carries an unused language extension
+	for i, m := range Modes {
+		c13Parses++
+		x := parseWith(c13ExtPB(i), src)
+		if x.Panic != "" {
+			return "panic", m.String() + " on a builder with registered operators: " + x.Panic, accepted
+		}
+		if (x.Err == nil) != (outs[i].Err == nil) || len(x.Errs) != len(outs[i].Errs) {
+			return "mode-depends-on-builder-extensions", fmt.Sprintf("%s: plain builder err=%v (%d errors); builder with unused registered operators and pass-through interceptors err=%v (%d errors)", m, outs[i].Err, len(outs[i].Errs), x.Err, len(x.Errs)), accepted
+		}
+		if x.Prog != nil && outs[i].Prog != nil {
+			if a, b := ref.XStmts(x.Prog.Statements), ref.XStmts(outs[i].Prog.Statements); a != b {
+				return "mode-depends-on-builder-extensions", fmt.Sprintf("%s: plain builder tree %s; builder with unused registered operators and pass-through interceptors %s", m, b, a), accepted
+			}
 		}
 	}
 	if !gen.HasLineInitialBracket(src) {
